@@ -145,7 +145,7 @@ int main(int argc, char **argv) {
             static int outk[70000], outv[70000]; int nout = -1;
             long lkb = vh_locks - vh_unlocks, ovb = vh_overlap_copies, bfb = vh_badfree;
             int newmem = (int) (vh_step & 1);
-            vh_watchdog(2);
+            vh_watchdog(6);
             errno = 0;
             vh_call_begin();
             if (inject) { if (inj_at) vh_fail_at = kk; else vh_fail_from = kk; }
